@@ -372,7 +372,14 @@ fn update_function_arg_info(
     } else {
         key.iter_args().collect()
     };
+    let nargs = entries.len();
     for (i, (name, default_val)) in entries.into_iter().enumerate() {
+        if arg_indices.try_get_id(&name.v).is_some() {
+            ctx.errors.push(Error::GenericWithNode {
+                msg: format!("`{}` is declared more than once in this list", name.v),
+                node: name.node(),
+            });
+        }
         symbol_table.extend_declaration(name.v.clone(), Declaration::Var(name.node()));
         arg_indices.insert(name.v.clone());
         match default_val {
@@ -384,7 +391,7 @@ fn update_function_arg_info(
             }
         }
     }
-    let nargs = required_args.len() + default_args.len();
+    // (one slot per position: with a name declared twice the sets above are smaller than the list)
     let func_arg_info = FuncArgDetails {
         symbol_table,
         arg_indices,
